@@ -198,7 +198,10 @@ class Gen:
         e.attrs = self.attr_list(lang)
         binary = tag[0] == 't' and (tag[1][3] & 1)
         if binary:
-            k = r.below(4)
+            k = r.below(6)
+            if k >= 4:
+                e.content = [('o', r.choice([b"hello", b"AQID", b"a b", b"x"]))] if k == 4 else [('s', r.choice([b"hello", b"QUJD", b"x"]))]
+                return e
             if k == 0:
                 e.content = [('o', r.bytes(r.range(1, 20)))]
             elif k == 1:
@@ -240,7 +243,8 @@ class Gen:
             for t in tags[i:i + per_doc]:
                 c = Elem(('t', t))
                 if t[3] & 1:
-                    c.content = [('o', b"\x00\x01\xfe<&")]
+                    # binary-flagged: opaque bytes, and printable-only content (must still come out as base64)
+                    c.content = [('o', b"\x00\x01\xfe<&")] if (len(root.content) & 1) else [('s', b"hello")]
                 else:
                     c.content = [('s', b"a<&>\"'b")] if (i & 1) else [Elem(('t', t))]
                 root.content.append(c)
@@ -307,6 +311,8 @@ def syncml_shapes(T, rng):
         x = Elem(('t', tagrow(T, L, "Final")))
         out.append((L, syncml_doc(T, L, "Add", b"text/x-vcard", [('s', b"A"), ('s', b"B")], extra_in_data=(1, x)), "syncml-elt-in-cdata"))
         out.append((L, syncml_doc(T, L, "Add", b"text/x-vcard", [('s', b"A")], extra_in_data=(0, x)), "syncml-elt-in-cdata"))
+        out.append((L, syncml_doc(T, L, "Add", b"text/x-vcard", [('s', b"A")], extra_in_data=(1, x)), "syncml-elt-in-cdata"))
+        out.append((L, syncml_doc(T, L, "Replace", b"", [('s', b"A")], with_meta=False, extra_in_data=(1, x)), "syncml-elt-in-cdata"))
         # <Type> rewrite + embedded DevInf / DM tree documents
         dev = {2001: 2002, 2101: 2102, 2201: 2202}[lid]
         DL = langs[dev]
